@@ -2,3 +2,4 @@ import MatidModel.Parse
 import MatidModel.Radii
 import MatidModel.Table
 import MatidModel.Chirality
+import MatidModel.Primitive
